@@ -117,6 +117,9 @@ def build(ty, js):
         for f, _ty in p[1]:
             a[f] = fnum(js["__row__"][f])
         return a[0]
+    if k == "PyConst":
+        import ast as _ast
+        return _ast.literal_eval(p[1])
     if k == "PyList":
         ety = p[1].rsplit(",", 1)[0].strip()
         return [build(ety, v) for v in js]
